@@ -12,12 +12,9 @@ Import ListNotations.
 Definition forwarding_statement : Prop :=
   uncovered cxx_table doc_table = [] /\ uncovered doc_table cxx_table = [].
 
-(* refuted on the tree as it is: the SBitEntry constructor stores GD_BIT_ENTRY,
-   BitEntry::SetNumBits(const char* ) overwrites the parsed scalar, Entry::Rename
-   renames the object exactly when the library call fails *)
-Theorem forwarding_refuted :
-  uncovered cxx_table doc_table = known_deviations /\ known_deviations <> [].
-Proof. split; [vm_compute; reflexivity|discriminate]. Qed.
+(* holds since the fixes C20-1..3 of bindings/cxx *)
+Theorem forwarding : forwarding_statement.
+Proof. vm_compute. split; reflexivity. Qed.
 
 (* ... and nothing else deviates, in either direction, including the inline
    methods of the headers *)
@@ -63,10 +60,7 @@ Proof. vm_compute. reflexivity. Qed.
 
 (* each constructor stores the entry type of its class *)
 Definition ctor_types_statement : Prop := forallb (ctor_ok cxx_table) ctor_types = true.
-Theorem ctor_types_refuted : ctor_ok cxx_table ("SBitEntry", "GD_SBIT_ENTRY")%string = false.
-Proof. vm_compute. reflexivity. Qed.
-Theorem ctor_types_partial :
-  forallb (ctor_ok cxx_table) (filter (fun p => negb (String.eqb (fst p) "SBitEntry")) ctor_types) = true.
+Theorem ctor_types : ctor_types_statement.
 Proof. vm_compute. reflexivity. Qed.
 
 (* ---- dirfile2ascii ---- *)
